@@ -181,7 +181,10 @@ type gogoProtoEnabled interface {
 //   - If neither is supported, it will marshaled using generic google.golang.org/protobuf methods and
 //     error out on unknown scheme.
 func (r *API) Write(ctx context.Context, msgType WriteMessageType, msg any) (_ WriteResponseStats, err error) {
+	// The buffers must not go back to the pool before the payload, which
+	// aliases one of them, has been sent for the last time.
 	buf := r.bufPool.Get().(*[]byte)
+	defer r.bufPool.Put(buf)
 
 	if err := msgType.Validate(); err != nil {
 		return WriteResponseStats{}, err
@@ -226,12 +229,11 @@ func (r *API) Write(ctx context.Context, msgType WriteMessageType, msg any) (_ W
 	}
 
 	comprBuf := r.bufPool.Get().(*[]byte)
+	defer r.bufPool.Put(comprBuf)
 	payload, err := compressPayload(comprBuf, r.opts.compression, *buf)
 	if err != nil {
 		return WriteResponseStats{}, fmt.Errorf("compressing %w", err)
 	}
-	r.bufPool.Put(buf)
-	r.bufPool.Put(comprBuf)
 
 	// Since we retry writes we need to track the total amount of accepted data
 	// across the various attempts.
